@@ -387,8 +387,8 @@ def run_otdev(chk):
 # ------------------------------------------------------------------------------------------------------------------- deviating signer, DKLs23 / Lindell22 (C04)
 
 def run_signdev(chk):
-    """DKLs23 (rvole/bbot on secp256k1, rvole/softspoken on P-256 over a replicated CNF sharing, three signers on secp256k1) and Lindell22
-    (BIP-340 on a CNF sharing, Mina with three signers), round API: one CBOR leaf of one message of one party altered per run."""
+    """DKLs23 (rvole/bbot on secp256k1, rvole/softspoken on P-256 over a replicated CNF sharing, three signers on secp256k1), Lindell22
+    (BIP-340 on a CNF sharing, Mina with three signers) and Lindell17 (secp256k1), round API: one CBOR leaf of one message of one party altered per run."""
     binary = _build()["plain"]
     stats = {"lines": 0, "by_case": {}, "by_leaf": {}, "caught_by": {}, "plans_per_case": {}}
 
@@ -408,6 +408,9 @@ def run_signdev(chk):
     take = "6" if chk.quick else "1000"      # deviations per case, spread over the case's plans by the seed (thorough: all)
     tasks = [("rv:signdev-%d" % i, _job(chk, "signdev-%d" % i, binary, False, ["-mode", "signdev", "-only", c, "-stride", take], stats, on_rows, 400, 3400))
              for i, c in enumerate(cases)]
+    # Lindell17 (Fischlin-compiled proofs, Paillier ciphertext c3): the test-mode binary, 1024-bit Paillier keys; all 20 plans (12 s)
+    test = vlib.build("prod", testmode=True)
+    tasks.append(("rv:signdev-l17", _job(chk, "signdev-l17", test, True, ["-mode", "signdev", "-only", "signdev:lindell17", "-stride", "1000"], stats, on_rows, 400, 3400)))
     res = vlib.parallel(tasks, max_workers=5)
     if stats["lines"] < 15:
         raise vlib.MachineryError("signing deviation driver produced only %d lines" % stats["lines"])
@@ -416,7 +419,7 @@ def run_signdev(chk):
     chk.assumptions += [
         "DKLs23 / Lindell22 deviations on production curves (ProdProto): the altered message is the deviator's, everything else (the deviator's later "
         "rounds included) is honest code; blame is judged for the honest parties only. The quick tier takes 6 of the 18 - 120 plans of each of five "
-        "cases by seed, the thorough tier all of them. Lindell17 and CGGMP21 are not in this matrix"]
+        "cases by seed, the thorough tier all of them; Lindell17 (two parties, trusted-dealer key, test-mode binary) runs all of its 20 plans. CGGMP21 is not in this matrix"]
     return res
 
 
